@@ -5,6 +5,7 @@ package c04
 import (
 	"fmt"
 	"math"
+	"os"
 	"strings"
 	"testing"
 	"time"
@@ -26,7 +27,7 @@ import (
 	"verif/internal/model"
 )
 
-const rule = "cases: (entry, type argument, bytes) over the 43 parser entry points plus 22 further byte-/string-consuming functions (key construction, decoders, constructors, mapping values); bytes are model encodings, encodings with every length/count field pushed to extremes, 1-2 structure-aware mutations, or arbitrary bytes up to 140 KiB; all 65,536 type codes plus -1, 65,536, MinInt, MaxInt swept through every type-taking function with four data shapes. On every accepted value all exported methods are called by reflection (argument-free always; with generated arguments where every parameter kind has a generator; returned library values are swept two levels deep). Oracle: every call returns (panics are caught per call and reported with the call path) within 20 s (re-run once with a 60 s limit before a hang is reported). Non-trivial: the parser accepted and >= 5 methods were invoked; distinct by (entry, type, input)."
+const rule = "(every 2-byte window of the fixed corpus of well-formed encodings set to 0xfffb..0xffff, 0x8000, 0x7fff, 0x0100, 0x00ff and every byte to 0x00 / 0x80 / 0xff, on every run) cases: (entry, type argument, bytes) over the 43 parser entry points plus 22 further byte-/string-consuming functions (key construction, decoders, constructors, mapping values); bytes are model encodings, encodings with every length/count field pushed to extremes, 1-2 structure-aware mutations, or arbitrary bytes up to 140 KiB; all 65,536 type codes plus -1, 65,536, MinInt, MaxInt swept through every type-taking function with four data shapes. On every accepted value all exported methods are called by reflection (argument-free always; with generated arguments where every parameter kind has a generator; returned library values are swept two levels deep). Oracle: every call returns (panics are caught per call and reported with the call path) within 20 s (re-run once with a 60 s limit before a hang is reported). Non-trivial: the parser accepted and >= 5 methods were invoked; distinct by (entry, type, input)."
 
 func TestMain(m *testing.M) { ev.Main(m, "C04", rule) }
 
@@ -229,10 +230,22 @@ func timed(what string, f func() error) error {
 	if ok {
 		return err // slow once, fine the second time: not a violation
 	}
-	return fmt.Errorf("%s did not return within 20 s and again not within 60 s (hang clause)", what)
+	// A call that never returns keeps spinning in its goroutine; shrinking would only start
+	// more of them (each attempt costs 80 s and two busy cores). The case at hand is the
+	// report: record it and end this shard.
+	msg := fmt.Sprintf("%s did not return within 20 s and again not within 60 s (hang clause)", what)
+	rec := ev.R()
+	rec.Violation("nopanic", current, msg)
+	rec.Flush()
+	os.Exit(1)
+	return fmt.Errorf("%s", msg)
 }
 
+// current is the case being checked (for the hang report above).
+var current Case
+
 func check(c Case, r *ev.Rec) error {
+	current = c
 	in := c.Bytes()
 	if f, ok := extras[c.Entry]; ok {
 		r.Class("extra:" + c.Entry)
@@ -335,6 +348,52 @@ var prop = &ev.Prop[Case]{Sub: "nopanic", Quick: 120000, Thorough: 5000000, Gen:
 func TestRegress(t *testing.T) { prop.Regress(t) }
 func TestReplay(t *testing.T)  { prop.Replay(t) }
 func TestProp(t *testing.T)    { prop.Run(t) }
+
+// TestEnumBoundaryFields: every 2-byte window of every well-formed encoding of the
+// fixed corpus (all entry points) is set to each boundary value of a 16-bit length /
+// count / type field, and every byte to 0x00, 0x80, 0xff: whatever field a position
+// belongs to sees its extreme values deterministically on every run.
+func TestEnumBoundaryFields(t *testing.T) {
+	ev.Enumerate(t, "fixed-corpus-x-every-offset-x-boundary-values", true, func(shard, shards int, r *ev.Rec) error {
+		words := []int{0xffff, 0xfffe, 0xfffd, 0xfffc, 0xfffb, 0x8000, 0x7fff, 0x0100, 0x00ff}
+		n := 0
+		for _, name := range lib.Names() {
+			for _, fi := range gen.FixedInputs(name) {
+				base := fi.Bytes()
+				if len(base) > 1500 {
+					continue
+				}
+				for p := 0; p < len(base); p++ {
+					n++
+					if n%shards != shard {
+						continue
+					}
+					for _, w := range words {
+						if p+1 >= len(base) {
+							break
+						}
+						b := append([]byte{}, base...)
+						b[p], b[p+1] = byte(w>>8), byte(w)
+						if err := prop.One(Case{Entry: name, Typ: fi.Typ, Hex: ev.H(b), Source: "enum-boundary", Mut: fmt.Sprintf("word@%d=%04x", p, w)}); err != nil {
+							return err
+						}
+					}
+					for _, v := range []byte{0x00, 0x80, 0xff} {
+						if base[p] == v {
+							continue
+						}
+						b := append([]byte{}, base...)
+						b[p] = v
+						if err := prop.One(Case{Entry: name, Typ: fi.Typ, Hex: ev.H(b), Source: "enum-boundary", Mut: fmt.Sprintf("byte@%d=%02x", p, v)}); err != nil {
+							return err
+						}
+					}
+				}
+			}
+		}
+		return nil
+	})
+}
 
 // TestEnumTypeCodes: all 65,536 codes plus -1, 65,536, MinInt, MaxInt through
 // every function that takes a type or size, four data shapes each.
